@@ -413,6 +413,13 @@ impl BoundsAnalyzer {
             let Some(bounds) = self.variable_bounds.get(name).copied() else {
                 continue;
             };
+            if !(bounds.lower < f64::INFINITY && bounds.upper > f64::NEG_INFINITY) {
+                // Diverging propagation on an infeasible model can push a bound
+                // to the wrong infinity (or to NaN): the interval holds no
+                // number a solver can be given. Keep the declared domain: the
+                // original constraint rows report the infeasibility.
+                continue;
+            }
             let tightened_type = match variable.get_type() {
                 VariableType::Boolean => VariableType::Boolean,
                 VariableType::IntegerRange(_, _) => {
